@@ -155,7 +155,7 @@ static void run_case(cs::Src& s, cs::Ctx& ctx) {
   Val v = gen::gen_value(s, o);
   if ((int)v.nesting() > limit) limit = (int)v.nesting();
   if (limit > 255) limit = 255;
-  gen::attach_float_literals(s, v, 40);
+  gen::attach_float_literals(s, v, 63);  // the documented limit for a literal inside a document
   // exclusions by construction: open known findings about number literals
   bool excluded = false;
   v.walk([&](const Val& n) {
